@@ -6,7 +6,7 @@
 //! there), runs `VersionGraph::{resolve, get, apply_diffs}` on it and removes it again.
 //!
 //! Request: `<op> <base> (<file>…) (<query>…) [(<label>…)]`, `file := (<name> <rank> <content>)`,
-//! `content := (tiny <mappings>) | (diff <diff>) | (raw x<bytes>)`, `label := (<node> <mappings>)`.
+//! `content := (tiny <mappings>) | (tinyw <mappings>) | (diff <diff>) | (raw x<bytes>)`, `label := (<node> <mappings>)`.
 //! Files are created in ascending `rank`; they are *listed in the request in the order `read_dir` returned them* when the
 //! generator probed the same creation sequence. `resolve` sorts the listing, so neither side's answer may depend on it:
 //! a dependence of the implementation on the creation order shows up as a differing answer.
@@ -18,7 +18,17 @@
 //! an answer that differs from the model and as a failing `oracle-path-independent`, whose domain is evaluated with
 //! the independent specification of diff application (`diffgen::spec_apply`), not with the code under test.
 //! The generator likewise uses neither the `.tinydiff` reader nor `apply_to`: the diffs of the "direct" directories are
-//! drawn by `diffgen::gen_diff_for` (the generator of C04) against the specification label of the parent version.
+//! drawn by `diffgen::gen_diff_for` (the generator of C04) against the specification label of the parent version, the
+//! diffs of the "history" directories are written down from the two labels (`g_diff`).
+//!
+//! Root files. A `(tiny m)` / `(tinyw m)` content is the mapping set as the generator made it; nothing of /repo filters
+//! or normalises it. Its domain is decided on the request (`tiny_domain`); the file is the specification text written by
+//! the harness (`spec_write_tiny`) or, for `tinyw`, the output of the writer of /repo. A reader that drops something, or
+//! a writer whose output does not read back, shows up as a differing `vg` answer and as failing oracles.
+//!
+//! Oracles. `oracle-fold`, `oracle-path-independent` and `oracle-errors` take the graph, their domain and the expected
+//! values from the request (`spec_graph`, `spec_contract`, `diffgen::spec_apply`, `spec_extend`); the implementation only
+//! supplies the answers that are compared.
 #![allow(dead_code, unused_imports, unused_variables, deprecated)]
 
 #[path = "/repo/src/version_graph.rs"]
@@ -35,7 +45,7 @@ use java_string::{JavaCodePoint, JavaString};
 use quill::tree::mappings::Mappings;
 use quill::tree::mappings_diff::MappingsDiff;
 use fvh::diffcodec::{diff_from, diff_to, write_spec};
-use fvh::diffgen::{act, canon_mappings, gen_diff_for, items, norm_diff, spec_apply, writable, Act, DCfg, GDClass, GDMember, GDParam, GDiff, GA};
+use fvh::diffgen::{act, canon_mappings, gen_diff_for, items, norm_diff, plain_cell, plain_doc, spec_apply, valid_class, valid_method, valid_unq, wf, writable, Act, DCfg, GDClass, GDMember, GDParam, GDiff, GA};
 use fvh::mapcodec::{from_sexp, to_sexp, NsMarker};
 use fvh::mapgen::{doc as gen_doc, gen_mappings, ident, GClass, GMappings, GMember, GParam, MapCfg};
 use fvh::rng::Rng;
@@ -77,7 +87,15 @@ fn canon<const N: usize, Ns>(m: &Mappings<N, Ns>) -> Sexp { canon_sexp(&to_sexp(
 // =================================================================== requests and directories
 
 #[derive(Clone, Debug)]
-enum Content { Tiny(Sexp), Diff(Sexp), Raw(Vec<u8>) }
+enum Content {
+	/// the file holds the specification text of the mapping set (`spec_write_tiny`, written without the code under test)
+	Tiny(Sexp),
+	/// the file holds what the WRITER of /repo (`quill::tiny_v2::write_vec`) makes of the mapping set: the way root files
+	/// come into being in production. The content the request ships is the mapping set itself, never what a reader returns
+	TinyW(Sexp),
+	Diff(Sexp),
+	Raw(Vec<u8>),
+}
 
 #[derive(Clone, Debug)]
 struct FileSpec { name: String, rank: usize, content: Content }
@@ -88,6 +106,7 @@ impl Content {
 	fn to_sexp(&self) -> Sexp {
 		match self {
 			Content::Tiny(s) => Sexp::list(vec![Sexp::tag("tiny"), s.clone()]),
+			Content::TinyW(s) => Sexp::list(vec![Sexp::tag("tinyw"), s.clone()]),
 			Content::Diff(s) => Sexp::list(vec![Sexp::tag("diff"), s.clone()]),
 			Content::Raw(b) => Sexp::list(vec![Sexp::tag("raw"), Sexp::bytes(b)]),
 		}
@@ -95,6 +114,7 @@ impl Content {
 	fn from_sexp(s: &Sexp) -> Result<Content, String> {
 		match s.as_list()? {
 			[Sexp::Atom(t), x] if t == "tiny" => Ok(Content::Tiny(x.clone())),
+			[Sexp::Atom(t), x] if t == "tinyw" => Ok(Content::TinyW(x.clone())),
 			[Sexp::Atom(t), x] if t == "diff" => Ok(Content::Diff(x.clone())),
 			[Sexp::Atom(t), x] if t == "raw" => {
 				let b = x.as_bytes()?;
@@ -103,26 +123,144 @@ impl Content {
 			_ => Err(format!("bad content {s}")),
 		}
 	}
-	/// the bytes of the file; `Err` = the request is outside the codec domain (not a read/write fixed point)
+	/// the bytes of the file; `Err` = the request is outside the codec domain. The domain of a `.tiny` content is decided on
+	/// the request alone (`tiny_domain`), its text is written by the harness (`spec_write_tiny`): neither the reader nor the
+	/// writer of /repo filters or normalises what a request ships
 	fn bytes(&self) -> Result<Vec<u8>, String> {
 		match self {
 			Content::Tiny(s) => {
+				if !tiny_domain(s) { return Err("tiny content is outside the domain of the Tiny v2 text".into()); }
+				cps_to_bytes(&spec_write_tiny(s))
+			}
+			Content::TinyW(s) => {
+				if !tiny_domain(s) { return Err("tiny content is outside the domain of the Tiny v2 text".into()); }
 				let m: Mappings<2, NsMarker> = from_sexp(s)?;
-				let bytes = quill::tiny_v2::write_vec(&m).map_err(|e| format!("write: {e}"))?;
-				let back: Mappings<2, NsMarker> = quill::tiny_v2::read(&bytes[..]).map_err(|e| format!("tiny content does not read back: {e:#}"))?;
-				if to_sexp(&back) != *s { return Err("tiny content is not a write/read fixed point".into()); }
-				Ok(bytes)
+				// a writer that refuses a mapping set of the domain leaves a file nobody can read: the case stays, and fails
+				Ok(quill::tiny_v2::write_vec(&m).unwrap_or_else(|_| b"the writer refused this mapping set\n".to_vec()))
 			}
 			Content::Diff(s) => {
 				let d = diff_from(s)?;
 				if !writable(s) || norm_diff(s) != *s { return Err("diff content is outside the write/read fixed-point domain of the .tinydiff text".into()); }
-				let mut js = JavaString::new();
-				for c in write_spec(&d) { js.push_java(JavaCodePoint::from_u32(c).ok_or("bad code point")?); }
-				Ok(js.into_bytes())
+				cps_to_bytes(&write_spec(&d))
 			}
 			Content::Raw(b) => Ok(b.clone()),
 		}
 	}
+}
+
+
+// =================================================================== the Tiny v2 text of a root file (specification side)
+
+fn cps_to_bytes(cps: &[u32]) -> Result<Vec<u8>, String> {
+	let mut js = JavaString::new();
+	for &c in cps { js.push_java(JavaCodePoint::from_u32(c).ok_or("bad code point")?); }
+	Ok(js.into_bytes())
+}
+
+/// a field descriptor at the front of `s`; returns the rest
+fn field_desc_prefix(s: &[u32]) -> Option<&[u32]> {
+	let mut s = s;
+	while s.first() == Some(&('[' as u32)) { s = &s[1..]; }
+	match char::from_u32(*s.first()?)? {
+		'B' | 'C' | 'D' | 'F' | 'I' | 'J' | 'S' | 'Z' => Some(&s[1..]),
+		'L' => { let end = s.iter().position(|&c| c == ';' as u32)?; if valid_class(&s[1..end]) { Some(&s[end + 1..]) } else { None } }
+		_ => None,
+	}
+}
+fn valid_field_desc(s: &[u32]) -> bool { field_desc_prefix(s).is_some_and(|r| r.is_empty()) }
+fn valid_method_desc(s: &[u32]) -> bool {
+	if s.first() != Some(&('(' as u32)) { return false; }
+	let mut s = &s[1..];
+	while s.first() != Some(&(')' as u32)) { match field_desc_prefix(s) { Some(r) => s = r, None => return false } }
+	s[1..] == ['V' as u32] || valid_field_desc(&s[1..])
+}
+
+/// a names row the text can express: every name a non-empty cell (an empty cell means "no name") that is valid for its
+/// level; `first` = the first namespace must have one (classes, fields, methods are stored under it)
+fn names_ok(names: &Sexp, n: usize, first: bool, valid: fn(&[u32]) -> bool) -> bool {
+	let row = items(names);
+	row.len() == n && row.iter().enumerate().all(|(i, o)| match items(o) {
+		[] => !(first && i == 0),
+		[x] => { let c = cps_of(x); !c.is_empty() && plain_cell(&c) && valid(&c) }
+		_ => false,
+	})
+}
+
+fn doc_ok(d: &Sexp) -> bool { match items(d) { [] => true, [x] => plain_doc(&cps_of(x)), _ => false } }
+
+/// The domain of the Tiny v2 text, decided on the `mapcodec` encoding of the request alone: two distinct non-empty
+/// namespace names; every entry stored under the key its first name (+ descriptor / index) gives, keys unique at every
+/// level (`diffgen::wf`); names non-empty, without TAB / LF / CR, valid for their level; descriptors well formed; comments
+/// non-empty (an empty comment cell means "no comment") sequences of Unicode scalar values
+fn tiny_domain(m: &Sexp) -> bool {
+	let [ns, doc, classes] = items(m) else { return false };
+	let nss: Vec<Vec<u32>> = items(ns).iter().map(cps_of).collect();
+	if nss.len() != 2 || nss[0] == nss[1] || !nss.iter().all(|n| !n.is_empty() && plain_cell(n)) { return false; }
+	let shaped = items(classes).iter().all(|c| { let c = items(c);
+		c.len() == 5 && items(&c[3]).iter().all(|f| items(f).len() == 5)
+			&& items(&c[4]).iter().all(|me| { let me = items(me); me.len() == 6 && items(&me[5]).iter().all(|p| items(p).len() == 4) }) });
+	if !shaped || !doc_ok(doc) { return false; }
+	let n = nss.len();
+	let shapes_ok = items(classes).iter().all(|c| { let c = items(c);
+		names_ok(&c[1], n, true, valid_class) && doc_ok(&c[2])
+			&& items(&c[3]).iter().all(|f| { let f = items(f); valid_field_desc(&cps_of(&f[1])) && names_ok(&f[3], n, true, valid_unq) && doc_ok(&f[4]) })
+			&& items(&c[4]).iter().all(|me| { let me = items(me);
+				valid_method_desc(&cps_of(&me[1])) && names_ok(&me[3], n, true, valid_method) && doc_ok(&me[4])
+					&& items(&me[5]).iter().all(|p| { let p = items(p); p[0].as_nat().is_ok() && names_ok(&p[2], n, false, valid_unq) && doc_ok(&p[3]) }) }) });
+	shapes_ok && wf(m)
+}
+
+/// `escape` of the format: backslash, LF, CR and TAB are written as backslash + `\\`, `n`, `r`, `t`
+fn esc_cps(s: &[u32], out: &mut Vec<u32>) {
+	for &c in s {
+		match c { 92 => out.extend([92, 92]), 10 => out.extend([92, 110]), 13 => out.extend([92, 114]), 9 => out.extend([92, 116]), _ => out.push(c) }
+	}
+}
+
+/// Specification text of a mapping set of `tiny_domain` as code points, entries in the order of the request: header
+/// `tiny 2 0 <namespaces>`, the set's comment `c <text>` one level deeper, per class `c <names>`, its comment, its fields
+/// `f <desc> <names>`, its methods `m <desc> <names>` with their parameters `p <index> <names>`, every comment one level
+/// below its entry; an absent name is an empty cell; comments are escaped
+fn spec_write_tiny(m: &Sexp) -> Vec<u32> {
+	fn line(out: &mut Vec<u32>, indent: usize, head: &str, cells: &[Vec<u32>]) {
+		for _ in 0..indent { out.push(9); }
+		out.extend(str_cps(head));
+		for c in cells { out.push(9); out.extend_from_slice(c); }
+		out.push(10);
+	}
+	fn names(row: &Sexp) -> Vec<Vec<u32>> { items(row).iter().map(|o| items(o).first().map(cps_of).unwrap_or_default()).collect() }
+	fn doc(out: &mut Vec<u32>, indent: usize, d: &Sexp) {
+		if let [x] = items(d) { let mut e = Vec::new(); esc_cps(&cps_of(x), &mut e); line(out, indent, "c", &[e]); }
+	}
+	let mut out = Vec::new();
+	let mut head = vec![str_cps("2"), str_cps("0")];
+	head.extend(items(&nth(m, 0)).iter().map(cps_of));
+	line(&mut out, 0, "tiny", &head);
+	doc(&mut out, 1, &nth(m, 1));
+	for c in items(&nth(m, 2)) {
+		let c = items(c);
+		line(&mut out, 0, "c", &names(&c[1]));
+		doc(&mut out, 1, &c[2]);
+		for f in items(&c[3]) {
+			let f = items(f);
+			let mut cells = vec![cps_of(&f[2])]; cells.extend(names(&f[3]));
+			line(&mut out, 1, "f", &cells);
+			doc(&mut out, 2, &f[4]);
+		}
+		for me in items(&c[4]) {
+			let me = items(me);
+			let mut cells = vec![cps_of(&me[2])]; cells.extend(names(&me[3]));
+			line(&mut out, 1, "m", &cells);
+			doc(&mut out, 2, &me[4]);
+			for p in items(&me[5]) {
+				let p = items(p);
+				let mut cells = vec![str_cps(&p[1].as_nat().unwrap_or(0).to_string())]; cells.extend(names(&p[2]));
+				line(&mut out, 2, "p", &cells);
+				doc(&mut out, 3, &p[3]);
+			}
+		}
+	}
+	out
 }
 
 impl FileSpec {
@@ -339,11 +477,16 @@ fn res_sexp(r: &Option<String>) -> Sexp {
 	match r { Some(s) => Sexp::list(vec![Sexp::tag("ok"), Sexp::Atom(s.clone())]), None => Sexp::tag("err") }
 }
 
-fn vg_answer(dir: &Path, queries: &[String]) -> Option<Sexp> { vg_answer_with(dir, queries, false) }
+fn vg_answer(req: &Req, dir: &Path) -> Option<Sexp> { vg_answer_with(req, dir, false) }
 
 /// `raw`: with the answer of `apply_diffs` for every version as it is, also where several are admissible (only compared
 /// between runs of the implementation, never with the model)
-fn vg_answer_with(dir: &Path, queries: &[String], raw: bool) -> Option<Sexp> {
+/// How many different answers the property allows for a version (the `apply` column) is decided on the request
+/// (`SpecGraph::admissible`) wherever the property says the directory resolves; only for a directory that resolves although
+/// it must not (reported by `oracle-errors`) the count falls back to the graph the implementation built.
+fn vg_answer_with(req: &Req, dir: &Path, raw: bool) -> Option<Sexp> {
+	let queries = &req.queries;
+	let sg = spec_graph(req).ok();
 	let g = VersionGraph::resolve(dir).ok()?;
 	let r = analyse(&g)?;
 	let mut edges: Vec<(Vec<u32>, Vec<u32>, String, String)> = Vec::new();
@@ -360,11 +503,14 @@ fn vg_answer_with(dir: &Path, queries: &[String], raw: bool) -> Option<Sexp> {
 			Sexp::opt(g.get(q).ok(), |(sp, v)| Sexp::list(vec![split_tag(sp), Sexp::str(v.as_str())]))])).collect()),
 		tagged("apply", r.nodes.iter().map(|(n, v)| {
 			let actual = r.actual(*v);
-			let adm = r.admissible(n);
-			let shown = match adm.len() {
+			let (k, member) = match &sg {
+				Some(sg) => { let adm = sg.admissible(n); (adm.len(), adm.contains(&actual_of(&g, *v))) }
+				None => { let adm = r.admissible(n); (adm.len(), adm.contains(&actual)) }
+			};
+			let shown = match k {
 				0 => Sexp::list(vec![Sexp::tag("unreachable"), Sexp::bool(actual.is_none())]),
 				1 => res_sexp(&actual),
-				k => Sexp::list(vec![Sexp::tag("amb"), Sexp::nat(k), Sexp::bool(adm.contains(&actual))]),
+				k => Sexp::list(vec![Sexp::tag("amb"), Sexp::nat(k), Sexp::bool(member)]),
 			};
 			Sexp::list(vec![Sexp::str(n), shown])
 		}).collect()),
@@ -386,15 +532,149 @@ fn prepare(req: &Req) -> Prepared {
 	}
 }
 
-fn oracle_fold(dir: &Path) -> Ans {
-	let Ok(g) = VersionGraph::resolve(dir) else { return Ans::out_of_domain() };
-	let Some(r) = analyse(&g) else { return Ans::fail("no-root-entry") };
-	for (n, v) in &r.nodes {
-		let actual = r.actual(*v);
-		let adm = r.admissible(n);
+/// What the REQUEST says (specification side; no call into the code under test): the graph of the file names, the root
+/// content with the inner class names of namespace `named` contracted, the diff content of every edge file.
+struct SpecGraph<'a> {
+	root: String,
+	/// the mapping set `resolve` must store for the root: `spec_contract` of the content of the root file
+	root_m: Sexp,
+	/// index of namespace `named`
+	ns: usize,
+	nodes: BTreeSet<String>,
+	/// (parent, child, content of the diff file)
+	edges: Vec<(String, String, &'a Content)>,
+	adj: BTreeMap<String, Vec<String>>,
+	dist: BTreeMap<String, usize>,
+}
+
+fn root_content_of(c: &Content) -> Option<&Sexp> { match c { Content::Tiny(s) | Content::TinyW(s) => Some(s), _ => None } }
+
+/// `Err(tag)`: the property says `resolve` must fail on this directory (`Thm.C05.resolve_error_iff`), `tag` names the reason
+fn spec_graph(req: &Req) -> Result<SpecGraph<'_>, &'static str> {
+	let names: Vec<&str> = req.files.iter().map(|f| f.name.as_str()).collect();
+	let vss = dir_versions(&names);
+	let roots: Vec<&FileSpec> = req.files.iter().filter(|f| f.name.ends_with(".tiny")).collect();
+	if names.iter().any(|n| file_versions(n).is_none()) { return Err("bad-name-accepted"); }
+	if roots.is_empty() { return Err("no-root-accepted"); }
+	if roots.len() >= 2 { return Err("two-roots-accepted"); }
+	if ambiguous(&vss) { return Err("ambiguous-accepted"); }
+	if dup_edges(&names) { return Err("second-diff-accepted"); }
+	let root = node_of(&vss, roots[0].name.strip_suffix(".tiny").unwrap_or(""));
+	let pairs: Vec<(String, String)> = node_edges(&names).into_iter().map(|(p, c, _)| (p, c)).collect();
+	let reach = reach_from(&pairs, &root);
+	if pairs.iter().any(|(p, c)| reach.contains(p) && reach_from(&pairs, c).contains(p)) { return Err("cycle-accepted"); }
+	// the root file must be a Tiny v2 text whose namespaces include `named` (the only way the contraction can fail)
+	let Some(content) = root_content_of(&roots[0].content) else { return Err("unreadable-root-accepted") };
+	let ns = named_index(content);
+	if ns == usize::MAX { return Err("unreadable-root-accepted"); }
+	let mut edges = Vec::new();
+	for (p, c, fname) in node_edges(&names) {
+		let Some(f) = req.files.iter().find(|f| f.name == fname) else { continue };
+		edges.push((p, c, &f.content));
+	}
+	let nodes = node_strings(&vss);
+	let mut adj: BTreeMap<String, Vec<String>> = nodes.iter().map(|n| (n.clone(), Vec::new())).collect();
+	for (p, c, _) in &edges { adj.entry(p.clone()).or_default().push(c.clone()); }
+	for cs in adj.values_mut() { cs.sort(); cs.dedup(); }
+	let mut dist = BTreeMap::new();
+	dist.insert(root.clone(), 0usize);
+	let mut q: VecDeque<String> = [root.clone()].into();
+	while let Some(n) = q.pop_front() {
+		let d = dist[&n];
+		for c in adj.get(&n).cloned().unwrap_or_default() { if !dist.contains_key(&c) { dist.insert(c.clone(), d + 1); q.push_back(c); } }
+	}
+	Ok(SpecGraph { root, root_m: spec_contract(content, ns), ns, nodes, edges, adj, dist })
+}
+
+impl SpecGraph<'_> {
+	fn shortest_paths(&self, target: &str) -> Vec<Vec<String>> {
+		let Some(&dt) = self.dist.get(target) else { return vec![] };
+		let mut out = Vec::new();
+		let mut path = vec![self.root.clone()];
+		self.rec(target, dt, &mut path, &mut out);
+		out
+	}
+	fn rec(&self, target: &str, dt: usize, path: &mut Vec<String>, out: &mut Vec<Vec<String>>) {
+		let cur = path.last().cloned().unwrap_or_default();
+		if cur == target { out.push(path.clone()); return; }
+		let dc = self.dist[&cur];
+		if dc >= dt { return; }
+		for c in self.adj.get(&cur).cloned().unwrap_or_default() {
+			if self.dist.get(&c) == Some(&(dc + 1)) { path.push(c); self.rec(target, dt, path, out); path.pop(); }
+		}
+	}
+	/// the property's value for a root path: the root mappings, the diffs of the edge files applied in order by the
+	/// specification of diff application (`diffgen::spec_apply`), inner class names extended by the specification of the
+	/// extension (`spec_extend`); `None` = some step must be refused (also: the edge file holds no diff)
+	fn fold(&self, path: &[String]) -> Option<String> {
+		let mut m = self.root_m.clone();
+		for w in path.windows(2) {
+			let (_, _, content) = self.edges.iter().find(|(p, c, _)| *p == w[0] && *c == w[1])?;
+			let Content::Diff(d) = content else { return None };
+			m = spec_apply(d, &m, &Sexp::str("named")).ok()?;
+		}
+		spec_extend(&m, self.ns).map(|m| canon_mappings(&m).to_string())
+	}
+	fn admissible(&self, target: &str) -> Vec<Option<String>> {
+		let mut v: Vec<Option<String>> = self.shortest_paths(target).iter().map(|p| self.fold(p)).collect();
+		v.sort(); v.dedup();
+		v
+	}
+}
+
+/// Specification of `extend_inner_class_names` on the `mapcodec` encoding: in namespace `ns` a class that has a name there
+/// and whose source name (first namespace) is nested, `P$I` (split at the LAST `$`, `P` non-empty and not ending in `/`, `I`
+/// non-empty without `/`), is called extended-name(`P`) + `$` + its own name, where extended-name(`P`) is the same rule
+/// applied to the name the class with key `P` has in `ns`; every other class keeps its name. `None` = must be refused: a
+/// class with a name in `ns` has no source name, or an outer class on the way is missing or has no name in `ns`
+fn spec_extend(m: &Sexp, ns: usize) -> Option<Sexp> {
+	let cs = items(&nth(m, 2)).to_vec();
+	if ns == 0 || ns >= items(&nth(m, 0)).len() { return None; }
+	fn outer(src: &[u32]) -> Option<&[u32]> {
+		let k = src.iter().rposition(|&c| c == '$' as u32)?;
+		if k > 0 && k + 1 < src.len() && src[k - 1] != '/' as u32 && !src[k + 1..].contains(&('/' as u32)) { Some(&src[..k]) } else { None }
+	}
+	fn ext(cs: &[Sexp], ns: usize, src: &[u32], own: Vec<u32>) -> Option<Vec<u32>> {
+		let Some(p) = outer(src) else { return Some(own) };
+		let pc = cs.iter().find(|c| cps_of(&nth(c, 0)) == p)?;
+		let pname = items(&nth(pc, 1)).get(ns).and_then(|o| items(o).first().map(cps_of))?;
+		let mut out = ext(cs, ns, p, pname)?;
+		out.push('$' as u32);
+		out.extend(own);
+		Some(out)
+	}
+	let mut out = Vec::new();
+	for c in &cs {
+		let mut names = items(&nth(c, 1)).to_vec();
+		if let Some(own) = names.get(ns).and_then(|o| items(o).first().map(cps_of)) {
+			let src = items(&names[0]).first().map(cps_of)?;
+			names[ns] = Sexp::list(vec![Sexp::cps(&ext(&cs, ns, &src, own)?)]);
+		}
+		out.push(Sexp::list(vec![nth(c, 0), Sexp::list(names), nth(c, 2), nth(c, 3), nth(c, 4)]));
+	}
+	Some(Sexp::list(vec![nth(m, 0), nth(m, 1), Sexp::list(out)]))
+}
+
+/// the answer of the implementation for a version in the comparison form of the specification side
+fn actual_of(g: &VersionGraph, v: VersionEntry) -> Option<String> { g.apply_diffs(v).ok().map(|m| canon_mappings(&to_sexp(&m)).to_string()) }
+
+/// `Thm.C05.apply_is_fold`, with the expected value computed from the REQUEST: for every version the file names describe,
+/// `apply_diffs` answers the root content (contracted), with the diff contents of the edge files of a shortest root path
+/// applied in order and the inner class names extended — each step by its specification (`spec_contract`,
+/// `diffgen::spec_apply`, `spec_extend`), none by the code under test. Domain: the property says the directory resolves
+fn oracle_fold(req: &Req, dir: &Path) -> Ans {
+	let Ok(sg) = spec_graph(req) else { return Ans::out_of_domain() };
+	let Ok(g) = VersionGraph::resolve(dir) else { return Ans::fail("rejected") };
+	let by_name: BTreeMap<String, VersionEntry> = g.versions().map(|v| (v.as_str().to_owned(), v)).collect();
+	let stored = g.versions().find_map(|v| g.is_root_then_get_mappings(v).map(|m| (v.as_str().to_owned(), canon_mappings(&to_sexp(m)))));
+	match stored { Some((n, m)) if n == sg.root && m == canon_mappings(&sg.root_m) => {}, Some((n, _)) if n != sg.root => return Ans::fail("root-name"), Some(_) => return Ans::fail("root"), None => return Ans::fail("no-root-entry") }
+	for n in &sg.nodes {
+		let Some(v) = by_name.get(n) else { return Ans::fail("node-missing") };
+		let actual = actual_of(&g, *v);
+		let adm = sg.admissible(n);
 		if adm.is_empty() { if actual.is_some() { return Ans::fail("no-path-answered"); } }
 		else if !adm.contains(&actual) { return Ans::fail("fold"); }
-		if r.dist.get(n).copied().unwrap_or(0) != v.depth() { return Ans::fail("depth"); }
+		if sg.dist.get(n).copied().unwrap_or(0) != v.depth() { return Ans::fail("depth"); }
 	}
 	Ans::pass()
 }
@@ -423,7 +703,7 @@ fn oracle_perm(req: &Req, all: bool) -> Ans {
 	for base in 0..2 {
 		for o in orders.iter().take(if base == 0 { 1 } else { orders.len() }) {
 			let td = match materialize(base, o) { Ok(Some(td)) => td, Ok(None) => continue, Err(e) => return Ans::BadOp(e) };
-			let a = vg_answer_with(&td.0, &req.queries, true).map(|s| s.to_string());
+			let a = vg_answer_with(req, &td.0, true).map(|s| s.to_string());
 			match &first { None => first = Some(a), Some(f) => if *f != a { return Ans::fail("order"); } }
 		}
 	}
@@ -534,33 +814,26 @@ fn oracle_path_independent(req: &Req, dir: &Path, labels: &Sexp) -> Ans {
 		let (Ok(n), Ok(m)) = (n.as_string(), from_sexp::<2, (Intermediary, Named)>(m)) else { return Ans::BadOp("label".into()) };
 		lab.entry(n).or_insert(m);
 	}
-	let Ok(g) = VersionGraph::resolve(dir) else { return Ans::out_of_domain() };
-	let Some(r) = analyse(&g) else { return Ans::fail("no-root-entry") };
-	let edge_files = node_edges(&names);
-	// domain: the labels are consistent with every diff file and with the root file. "Consistent with a diff file" is
-	// decided by the specification of diff application on the content the request gives for that file, not by reading
-	// and applying it with the code under test: an edge that the implementation cannot read or apply stays in the domain.
-	// the root label must be the content the request gives for the root file with the inner class names of the second
-	// namespace contracted — decided on the request (specification side, `spec_contract`), NOT on the root mappings the
-	// implementation stored: a `resolve` that stores something else than the root file says stays inside the domain and fails
-	let root_files: Vec<&FileSpec> = req.files.iter().filter(|f| f.name.ends_with(".tiny")).collect();
-	let [FileSpec { content: Content::Tiny(root_content), .. }] = root_files.as_slice() else { return Ans::out_of_domain() };
-	match lab.get(r.root.as_str()) { Some(m) if canon(m) == canon_sexp(&spec_contract(root_content, named_index(root_content))) => {}, _ => return Ans::out_of_domain() }
-	for (p, _) in &r.nodes {
+	// Everything below is decided on the request: the graph is the one the file names describe, the domain is evaluated with
+	// the specifications of contraction and diff application on the contents the request gives, the expected value with the
+	// specification of the extension. A node or an edge the implementation lost is a failure, not a skip.
+	let Ok(sg) = spec_graph(req) else { return Ans::out_of_domain() };
+	// domain: the root label is the contracted root content, and the labels are consistent with every diff file
+	match lab.get(&sg.root) { Some(m) if canon_mappings(&to_sexp(m)) == canon_mappings(&sg.root_m) => {}, _ => return Ans::out_of_domain() }
+	for (p, c, content) in &sg.edges {
 		let Some(mp) = lab.get(p) else { continue };
-		for c in r.adj.get(p).cloned().unwrap_or_default() {
-			// the diff file of this edge (file names may spell a `client~server` version by one half)
-			let Some(fname) = edge_files.iter().find(|(ep, ec, _)| ep == p && *ec == c).map(|(_, _, f)| f) else { return Ans::out_of_domain() };
-			let Some(Content::Diff(d)) = req.files.iter().find(|f| f.name == *fname).map(|f| &f.content) else { return Ans::out_of_domain() };
-			let Ok(mc) = spec_apply(d, &to_sexp(mp), &Sexp::str("named")) else { return Ans::out_of_domain() };
-			match lab.get(&c) { Some(lc) if canon_mappings(&to_sexp(lc)) == mc => {}, _ => return Ans::out_of_domain() }
-		}
+		let Content::Diff(d) = content else { return Ans::out_of_domain() };
+		let Ok(mc) = spec_apply(d, &to_sexp(mp), &Sexp::str("named")) else { return Ans::out_of_domain() };
+		match lab.get(c) { Some(lc) if canon_mappings(&to_sexp(lc)) == mc => {}, _ => return Ans::out_of_domain() }
 	}
-	for (n, v) in &r.nodes {
-		if !r.dist.contains_key(n) { continue; }
+	let Ok(g) = VersionGraph::resolve(dir) else { return Ans::fail("rejected") };
+	let by_name: BTreeMap<String, VersionEntry> = g.versions().map(|v| (v.as_str().to_owned(), v)).collect();
+	for n in &sg.nodes {
+		if !sg.dist.contains_key(n) { continue; }
+		let Some(v) = by_name.get(n) else { return Ans::fail("node-missing") };
 		let Some(mv) = lab.get(n) else { return Ans::fail("path") };
-		let expected = mv.extend_inner_class_names("named").ok().map(|m| canon(&m).to_string());
-		if r.actual(*v) != expected { return Ans::fail("path"); }
+		let expected = spec_extend(&to_sexp(mv), sg.ns).map(|m| canon_mappings(&m).to_string());
+		if actual_of(&g, *v) != expected { return Ans::fail("path"); }
 	}
 	Ans::pass()
 }
@@ -577,8 +850,8 @@ fn exec(op: &str, args: &[Sexp]) -> Ans {
 	if op == "oracle-perm-full" || op == "oracle-perm-all" { return oracle_perm(&req, op == "oracle-perm-all"); }
 	let td = match prepare(&req) { Prepared::Dir(td) => td, Prepared::Skip(w) => return Ans::Skip(w), Prepared::Bad(e) => return Ans::BadOp(e) };
 	match op {
-		"vg" => match vg_answer(&td.0, &req.queries) { Some(s) => Ans::Ok(s), None => Ans::err() },
-		"oracle-fold" => oracle_fold(&td.0),
+		"vg" => match vg_answer(&req, &td.0) { Some(s) => Ans::Ok(s), None => Ans::err() },
+		"oracle-fold" => oracle_fold(&req, &td.0),
 		"oracle-names" => oracle_names(&req, &td.0),
 		"oracle-errors" => oracle_errors(&req, &td.0),
 		_ => oracle_path_independent(&req, &td.0, labels.unwrap_or(&Sexp::list(vec![]))),
@@ -650,13 +923,12 @@ fn mutate(r: &mut Rng, m: &GMappings, cfg: &MapCfg) -> GMappings {
 
 fn real(m: &GMappings) -> Option<RM> { from_sexp::<2, (Intermediary, Named)>(&m.to_sexp()).ok() }
 
-/// the `(tiny …)` content of a mapping set, normalised through the writer and the reader of /repo
-fn tiny_content(m: &RM) -> Option<Content> {
-	let bytes = quill::tiny_v2::write_vec(m).ok()?;
-	let back: RM = quill::tiny_v2::read(&bytes[..]).ok()?;
-	let c = Content::Tiny(to_sexp(&back));
-	c.bytes().ok()?;
-	Some(c)
+/// the content of a root file: the mapping set as the generator made it (nothing of /repo looks at it before it is
+/// shipped); `by_writer`: the file is produced by the writer of /repo instead of the specification text.
+/// `None` = outside the domain of the Tiny v2 text (`tiny_domain`, decided on the S-expression alone)
+fn tiny_content(m: &Sexp, by_writer: bool) -> Option<Content> {
+	if !tiny_domain(m) { return None; }
+	Some(if by_writer { Content::TinyW(m.clone()) } else { Content::Tiny(m.clone()) })
 }
 
 /// an empty comment cannot be written (an empty cell means "no comment"): labels never carry one
@@ -677,6 +949,14 @@ fn hist_diff(a: &RM, b: &RM) -> Option<Sexp> {
 	let d = MappingsDiff::diff(a, b).ok()?;
 	let s = norm_diff(&diff_to(&d));
 	if writable(&s) { Some(s) } else { None }
+}
+
+/// the diff of one step of a "history" directory: written down from the two labels by the harness (`g_diff`); only where
+/// that cannot express the step (or leaves the domain of the text) `MappingsDiff::diff` of /repo is asked
+fn step_diff(a: &GMappings, b: &GMappings, st: &mut Out) -> Option<Sexp> {
+	if let Some(d) = g_diff(a, b).map(|d| norm_g(&d)).filter(|d| writable(d)) { st.stats.hit("history:diff-by-harness"); return Some(d); }
+	st.stats.hit("history:diff-by-repo");
+	hist_diff(&real(a)?, &real(b)?)
 }
 
 fn empty_diff() -> Sexp { Sexp::list(vec![Sexp::tag("none"), Sexp::tag("none"), Sexp::list(vec![])]) }
@@ -934,6 +1214,18 @@ fn gen_dir(r: &mut Rng, st: &mut Out) -> Option<GenDir> {
 		for c in fam { if !g0.classes.iter().any(|x| x.names[0] == c.names[0]) { g0.classes.push(c); } }
 		st.stats.hit("root:nested-family-with-shared-simple-names");
 	}
+	// comments the text has to escape (TAB, CR, LF, backslashes in every position), at every level of the root file
+	if r.chance(1, 3) {
+		const HARD: &[&str] = &["tab\there", "\t", "cr\rlf\n", "\\t", "end\\", "a\\nb", "\\", " \t "];
+		let mut hard = |d: &mut Option<String>| if d.is_some() && r.chance(1, 2) { *d = Some((*r.pick(HARD)).to_owned()); };
+		hard(&mut g0.doc);
+		for c in &mut g0.classes {
+			hard(&mut c.doc);
+			for f in &mut c.fields { hard(&mut f.doc); }
+			for me in &mut c.methods { hard(&mut me.doc); for p in &mut me.params { hard(&mut p.doc); } }
+		}
+		st.stats.hit("root:comments-to-escape");
+	}
 	g0.ns = match r.below(14) { 0 => vec!["intermediary".into(), "yarn".into()], 1 => vec!["official".into(), "named".into()], _ => vec!["intermediary".into(), "named".into()] };
 
 	// ---- node names
@@ -1032,8 +1324,17 @@ fn gen_dir(r: &mut Rng, st: &mut Out) -> Option<GenDir> {
 
 	// ---- files
 	let mut files: Vec<FileSpec> = Vec::new();
-	let root_file = if r.chance(1, 2) { reals[0].extend_inner_class_names("named").ok().unwrap_or_else(|| reals[0].clone()) } else { reals[0].clone() };
-	let mut root_content = tiny_content(&root_file)?;
+	// the root file in contracted or (half of the directories) in extended form, extended by the specification
+	let mut root_file = label_sx[0].clone();
+	if r.chance(1, 2) {
+		match spec_extend(&label_sx[0], named_index(&label_sx[0])) {
+			Some(x) => { st.stats.hit("root:extended-form"); root_file = x; }
+			None => st.stats.hit("root:extension-refused-by-specification"),
+		}
+	}
+	let by_writer = r.chance(1, 3);
+	if by_writer { st.stats.hit("root:file-by-writer-of-repo"); }
+	let Some(mut root_content) = tiny_content(&root_file, by_writer) else { st.stats.hit("gen:root-outside-text-domain"); return None };
 	if defect == "raw-root" { root_content = Content::Raw(r.pick(RAW_ALLOWED).to_vec()); }
 	let bad_edge = if edges.is_empty() { 0 } else if shape == "diamond" && r.chance(2, 3) { r.below(4) } else { r.below(edges.len()) };
 	let mut edge_files: Vec<(String, Content)> = Vec::new();
@@ -1042,23 +1343,23 @@ fn gen_dir(r: &mut Rng, st: &mut Out) -> Option<GenDir> {
 	let mut added: Vec<BTreeSet<String>> = vec![BTreeSet::new(); n];
 	for (i, (p, c)) in edges.iter().enumerate() {
 		let tree_edge = first_parent(*c) == *p && edges.iter().position(|e| e.1 == *c) == Some(i);
-		let consistent: Option<Sexp> = if !direct { hist_diff(&reals[*p], &reals[*c]) }
+		let consistent: Option<Sexp> = if !direct { step_diff(&label[*p], &label[*c], st) }
 			else if tree_edge { tree_diff[*c].clone() }
 			else { g_diff(&label[*p], &label[*c]).map(|d| norm_g(&d)).filter(|d| writable(d)) };
 		let mut content = match consistent {
 			Some(d) => Content::Diff(d),
 			// history: outside the fixed-point domain of the text; direct: no diff leads from this parent to the child's label
-			None if !direct => return None,
+			None if !direct => { st.stats.hit("gen:history-step-without-diff"); return None }
 			None => { st.stats.hit("second-edge:no-consistent-diff"); if r.chance(1, 2) { continue; } Content::Diff(draw(r, &label[*p], 0, st)) }
 		};
 		if !tree_edge && direct { st.stats.hit("second-edge"); }
 		if i == bad_edge {
 			match defect.as_str() {
 				"inconsistent" => {
-					content = Content::Diff(if direct { draw(r, &label[*p], 0, st) } else { let mut o = mutate(r, &label[*c], &cfg); scrub(&mut o); hist_diff(&reals[*p], &real(&o)?)? });
+					content = Content::Diff(if direct { draw(r, &label[*p], 0, st) } else { let mut o = mutate(r, &label[*c], &cfg); scrub(&mut o); match step_diff(&label[*p], &o, st) { Some(d) => d, None => { st.stats.hit("gen:history-step-without-diff"); return None } } });
 				}
 				"reversed-diff" => {
-					let rev = if direct { g_diff(&label[*c], &label[*p]).map(|d| norm_g(&d)).filter(|d| writable(d)) } else { hist_diff(&reals[*c], &reals[*p]) };
+					let rev = if direct { g_diff(&label[*c], &label[*p]).map(|d| norm_g(&d)).filter(|d| writable(d)) } else { step_diff(&label[*c], &label[*p], st) };
 					if let Some(d) = rev { content = Content::Diff(d); }
 				}
 				"raw-edge" => content = Content::Raw(r.pick(RAW_ALLOWED).to_vec()),
@@ -1152,6 +1453,7 @@ fn scenario() -> Option<Vec<GenDir>> {
 			fields: vec![GMember { desc: "I".into(), names: vec![n("e"), n("fieldE")], doc: None, params: vec![] }],
 			methods: vec![
 				GMember { desc: "(II)V".into(), names: vec![n("b"), n("methodB")], doc: None, params: vec![
+					GParam { index: 0, names: vec![None, n("receiver")], doc: n("the receiver\tof methodB, \\t is no tab") },
 					GParam { index: 1, names: vec![None, n("first")], doc: None }, GParam { index: 2, names: vec![None, n("second")], doc: None }] },
 				GMember { desc: "(I)V".into(), names: vec![n("c"), None], doc: None, params: vec![GParam { index: 1, names: vec![None, n("value")], doc: None }] }] },
 		GClass { names: vec![n("a$x"), n("ClassX")], doc: None, fields: vec![], methods: vec![] },
@@ -1190,7 +1492,7 @@ fn scenario() -> Option<Vec<GenDir>> {
 	];
 	let named = Sexp::str("named");
 	let mut labels: Vec<(String, Sexp)> = vec![("1.0".into(), root.to_sexp())];
-	let mut files = vec![FileSpec { name: "1.0.tiny".into(), rank: 0, content: tiny_content(&real(&root)?)? }];
+	let mut files = vec![FileSpec { name: "1.0.tiny".into(), rank: 0, content: tiny_content(&root.to_sexp(), false)? }];
 	for (p, c, classes) in steps {
 		let d = norm_g(&GDiff { info: GA::None, doc: GA::None, classes });
 		let lp = labels.iter().find(|(name, _)| name == p)?.1.clone();
@@ -1327,7 +1629,7 @@ fn classify(out: &mut Out, base: usize, files: &[FileSpec], queries: &[String], 
 	let ls = Sexp::list(labels.iter().map(|(n, m)| Sexp::list(vec![Sexp::str(n), m.clone()])).collect());
 	let verdict = match oracle_path_independent(&req, &td.0, &ls) { Ans::Ok(s) => s.to_string(), _ => "other".into() };
 	out.stats.hit(&format!("path-independent:{}:{verdict}", kind.split('/').next().unwrap_or("")));
-	match vg_answer(&td.0, queries) {
+	match vg_answer(&req, &td.0) {
 		None => out.stats.hit("resolve:err"),
 		Some(s) => {
 			out.stats.hit("resolve:ok");
@@ -1371,7 +1673,7 @@ fn gen(r: &mut Rng, tier: Tier, out: &mut Out) {
 			}
 		}
 	}
-	let rounds = if tier == Tier::Thorough { 6000 } else { 850 };
+	let rounds = if tier == Tier::Thorough { 6000 } else { 880 };
 	let mut made = 0;
 	let mut tries = 0;
 	while made < rounds && tries < rounds * 4 {
